@@ -60,6 +60,12 @@ def data_input(name, pattern, carrier='list_none', symbolic=True, values=None):
         cells = [El(X.NAN, False) if e is None else El(e.d if isinstance(e, Sc) else X.num(e), False) for e in els]
         v = Vec.fresh(cells, kind='nd' if carrier == 'ndarray' else 'series', dtype='f8', owner=name)
         return v
+    if carrier == 'ndarray_int':
+        # an integer-typed array cannot hold missing values
+        cells = [El(e.d if isinstance(e, Sc) else X.num(e), False) for e in els if e is not None]
+        if len(cells) != len(els):
+            raise ValueError('integer carrier with missing values')
+        return Vec.fresh(cells, kind='nd', dtype='i8', owner=name)
     if carrier == 'masked':
         # the data under a caller's mask is an arbitrary real number
         cells = [El(x(name + '~masked', i), True) if e is None else El(e.d if isinstance(e, Sc) else X.num(e), False)
